@@ -39,4 +39,24 @@ PROPS = {
             "iriencode: the exact encoding is compared with the reference only for valid UTF-8 input; for invalid input only the output alphabet is checked",
         ],
     },
+    "C18": {
+        "quick": [
+            {"test": "TestC18Filter", "checks": 60000, "shards": 2},
+            {"test": "TestC18Enum", "kind": "enum", "shards": 4},
+            {"test": "TestC18Widthratio", "checks": 20000},
+            {"test": "TestC18WidthratioEnum", "kind": "enum"},
+        ],
+        "thorough": [
+            {"test": "TestC18Filter", "checks": 3200000, "shards": 16},
+            {"test": "TestC18Enum", "kind": "enum", "shards": 8},
+            {"test": "TestC18Widthratio", "checks": 400000, "shards": 2},
+            {"test": "TestC18WidthratioEnum", "kind": "enum"},
+        ],
+        "assumptions": [
+            "where Django 1.7 and a pongo2 fixture disagree the fixture wins (truncatechars n<3 without ellipsis, center's odd space on the left, wordwrap by word count, unpadded linenumbers, get_digit out of range returns the input, yesno nil with two choices -> maybe, add of int and text concatenates)",
+            "floatformat: ties (first dropped digit 5) and negative values rounding to zero (sign of zero) are outside the reference's domain",
+            "upper/lower/capfirst compared per rune with unicode.ToUpper/ToLower on ASCII, Latin-1, Greek, Cyrillic letters",
+            "padding filters: behaviour around the 10000-character padding cap is only required to be 'error or correct shape'",
+        ],
+    },
 }
